@@ -98,8 +98,15 @@ func (w *Writer) Close() {
 }
 
 // Die reports a harness-level failure (exit 3: the driver is dead, not the code under test).
+// BeforeExit, when set, runs before Die ends the process (a harness that has to let background work of the code under
+// test come to rest first).
+var BeforeExit func()
+
 func Die(format string, a ...interface{}) {
 	fmt.Fprintf(os.Stderr, "harness: "+format+"\n", a...)
+	if BeforeExit != nil {
+		BeforeExit()
+	}
 	os.Exit(3)
 }
 
